@@ -375,8 +375,14 @@ impl<T: CountMinValue> CountMinSketch<T> {
         }
 
         let entries = entries_for_config_checked(num_hashes, num_buckets)?;
+        let is_empty = (flags & FLAGS_IS_EMPTY) != 0;
+        // a non-empty image carries the total weight and every counter: do not allocate the
+        // table on the word of header fields the remaining bytes cannot back
+        if !is_empty && (entries + 1).saturating_mul(LONG_SIZE_BYTES) > cursor.remaining() {
+            return Err(Error::insufficient_data("counts"));
+        }
         let mut sketch = Self::make(num_hashes, num_buckets, seed, entries);
-        if (flags & FLAGS_IS_EMPTY) != 0 {
+        if is_empty {
             return Ok(sketch);
         }
 
